@@ -41,6 +41,19 @@ def boundary_obligations(rep):
     rep.add_obligation("luaexec:helpers#frame#only-module-level-functions-or-partials-over-the-context-are-handed-to-Lua",
                        "frame", "proved" if not bad and n_values else "refuted", "syntactic",
                        detail=f"{n_values} values; offending: {bad[:4]}")
+    # context data handed to Lua as a global must be a deep copy converted recursively (immutable argument values):
+    # a live dict/list of the context would let Lua modify the processing context
+    m0, f0 = loader.find("luaexec:initialize_lua")
+    data_globals = []
+    for n in ast.walk(f0):
+        if isinstance(n, ast.Call) and loader.norm(n.func) == "set_global_lua_variable" and len(n.args) == 3:
+            data_globals.append(loader.norm(n.args[2]))
+    # any other route by which initialize_lua hands context data to Lua (table_from(...) of something built from ctx)
+    others = [loader.norm(n)[:80] for n in ast.walk(f0) if isinstance(n, ast.Call) and isinstance(n.func, ast.Attribute)
+              and n.func.attr == "table_from" and "deepcopy" not in loader.norm(n)]
+    okd = data_globals == ["lua.table_from(copy.deepcopy(ctx.NAMESPACE_DATA), recursive=True)"] and not others
+    rep.add_obligation("luaexec:initialize_lua#frame#context-data-reaches-Lua-only-as-a-recursive-deep-copy", "frame",
+                       "proved" if okd else "refuted", "syntactic", detail=f"{data_globals} {others}")
     # lua_loader: the opened path is LUA_DIR / prefix / path with prefix from the constant search list
     m, f = loader.find("luaexec:lua_loader")
     fp = [loader.norm(n) for n in ast.walk(f) if isinstance(n, ast.Assign) and loader.norm(n.targets[0]) == "file_path"]
